@@ -28,11 +28,13 @@ def run(ck: Check):
                "analysis considers reachable inside a function whose body is reachable (a dead store or an unused "
                "declaration that would otherwise execute; the exact executed-statement bitmap needs the proposed "
                "hook, see proposed-fixes/hook-exec-bitmap.diff); distinct by source text")
-    ck.assumptions.append("C03: the evaluator the theorems speak about is the fragment in Model/AnalysisEval.lean "
-                          "(control flow, scopes, hoisting, calls, plan skipping; primitive operations abstract), "
-                          "instantiated in c03_concrete with the primitive steps of Model/Eval.lean (evalPrims, proved "
-                          "Lawful); that instance is tied to the real runtime by the `arun` streams (plain and pruned "
-                          "runs compared with the real runtime's), not by a proof about Rust")
+    ck.assumptions.append("C03: c03_full_holds speaks about the evaluator fragment Model/AnalysisEval.lean (abstract "
+                          "primitives); c03_concrete instantiates it with the primitive steps of Model/Eval.lean (evalPrims, "
+                          "proved Lawful); c03_bridge / c03_bridge_converse prove that instance and Model/Eval.lean equivalent "
+                          "up to fuel on annotated programs (side conditions evaluated per case: bridge=1), and c03_eval is "
+                          "C03 for Eval.run itself. What ties these models to the Rust runtime is not a proof about Rust but "
+                          "the `arun` streams here (fragment instance vs real runtime, plain and pruned) and the `run` "
+                          "streams of C01 (Model/Eval.lean vs real runtime)")
     ck.build_harness()
     ck.gen_tables()
     ck.lean_obligations(MODULES)
@@ -96,6 +98,8 @@ def coverage_statistic(ck, reqs):
       pure user functions): hypothesis `structOkB root facts` — distinct ids, consistency of the facts and of the
       model's tables/verdicts with the annotated program, no plan involved (`live=1`); the whole model plan of such
       a program is covered;
+    * `c03_bridge` / `c03_eval` (refinement of the fragment evaluator by Model/Eval.lean): hypothesis `okBlock (orcOf …)`
+      (`bridge=1`);
     * `c03_partial_checked` (the older static theorem: unreachable statements, unused functions, quiet stores to
       never-read variables) for comparison."""
     if not reqs or not os.path.exists(DRIVER):
@@ -103,7 +107,7 @@ def coverage_statistic(ck, reqs):
     inp = ("\n".join("cover " + r.split(" ", 1)[1] for r in reqs) + "\n").encode()
     p = sh([DRIVER, "plan"], inp=inp, timeout=1800)
     tot = proved = ok = n = 0
-    live_items = live_n = 0
+    live_items = live_n = bridge_n = 0
     why = {"distinct": 0, "global": 0, "fnsok": 0, "rootok": 0}
     for line in p.stdout.decode(errors="replace").splitlines():
         d = planlib.parse(line)
@@ -116,11 +120,18 @@ def coverage_statistic(ck, reqs):
         if d.get("live") == "1":
             live_n += 1
             live_items += int(d["total"])
+        if d.get("bridge") == "1":
+            bridge_n += 1
         for k in why:
             if d.get(k) == "0":
                 why[k] += 1
     ck.extra_cov["plan_items_covered_by_c03_full"] = \
         f"{live_items}/{tot} over {n} programs (all decidable hypotheses hold on {live_n})"
+    ck.extra_cov["bridge_side_conditions_hold"] = \
+        (f"{bridge_n}/{n} programs (okBlock with the oracle computed from the facts: hypothesis of c03_bridge / c03_eval, "
+         f"the refinement of the fragment evaluator by Model/Eval.lean)")
+    if n and bridge_n < n:
+        ck.notes.append(f"c03_eval: the static side conditions of the bridge failed on {n - bridge_n} of {n} sampled programs")
     ck.extra_cov["plan_items_covered_by_c03_partial_checked"] = f"{proved}/{tot} over {n} programs (hypotheses hold on {ok})"
     if n and live_n < n:
         ck.notes.append(f"c03_full: decidable hypothesis structOkB failed on {n - live_n} of {n} sampled programs "
